@@ -122,22 +122,22 @@ type vfDelivery struct {
 }
 
 type vfSwitch struct {
-	mu        sync.Mutex
-	eps       map[netip.AddrPort]*vfConn
-	all       []*vfConn
-	inflight  []*vfDgram
-	wire      []*vfDgram   // everything ever emitted (incl. blackholed), in emission order
-	delivered []vfDelivery // everything handed to an endpoint
-	nextID    int
-	nextPort  uint16
-	natPub    map[netip.Addr]netip.Addr // private IP -> public IP
-	natPriv   map[netip.Addr]netip.Addr // public IP -> private IP
-	unreach   map[[2]netip.Addr]bool    // (src private IP, dst private IP) pairs that are NOT reachable
-	pwds      map[string]string
-	step      int
+	mu         sync.Mutex
+	eps        map[netip.AddrPort]*vfConn
+	all        []*vfConn
+	inflight   []*vfDgram
+	wire       []*vfDgram   // everything ever emitted (incl. blackholed), in emission order
+	delivered  []vfDelivery // everything handed to an endpoint
+	nextID     int
+	nextPort   uint16
+	natPub     map[netip.Addr]netip.Addr // private IP -> public IP
+	natPriv    map[netip.Addr]netip.Addr // public IP -> private IP
+	unreach    map[[2]netip.Addr]bool    // (src private IP, dst private IP) pairs that are NOT reachable
+	pwds       map[string]string
+	step       int
 	failListen map[int]bool // n-th listen fails
-	listens   int
-	onEmit    func(*vfDgram)
+	listens    int
+	onEmit     func(*vfDgram)
 }
 
 func newVfSwitch() *vfSwitch {
@@ -211,6 +211,7 @@ type vfConn struct {
 	rdl     time.Time
 	dlCh    chan struct{}
 	created string
+	manual  *vfPeer // socket owned by the scripted peer: no reader goroutine, deliveries go to the peer's inbox
 }
 
 func (c *vfConn) LocalAddr() net.Addr  { return net.UDPAddrFromAddrPort(c.local) }
@@ -390,6 +391,17 @@ func (s *vfSwitch) deliverID(id int, keep bool) (delivered bool, err error) {
 	s.mu.Unlock()
 	if ep == nil {
 		return false, nil
+	}
+	if ep.manual != nil {
+		if ep.isClosed() {
+			return false, nil
+		}
+		s.mu.Lock()
+		s.delivered = append(s.delivered, vfDelivery{Dgram: d, To: ep.owner, Sock: ep.local, Step: s.step})
+		s.mu.Unlock()
+		ep.manual.inbox = append(ep.manual.inbox, d)
+
+		return true, nil
 	}
 	before := ep.waiting.Load()
 	if before == 0 { // reader not started yet: the socket exists but nobody reads; the datagram is lost like on a real socket whose buffer is never read
@@ -629,10 +641,10 @@ func vfSimpleNet(sw *vfSwitch, owner string, ips ...string) *vfNet {
 // ---------------------------------------------------------------- parked tickers (hook H1)
 
 var ( //nolint:gochecknoglobals
-	vfTickerMu    sync.Mutex
-	vfTickerWant  = map[*Agent]bool{}
-	vfTickers     = map[*Agent]func(){}
-	vfTickerOnce  sync.Once
+	vfTickerMu   sync.Mutex
+	vfTickerWant = map[*Agent]bool{}
+	vfTickers    = map[*Agent]func(){}
+	vfTickerOnce sync.Once
 )
 
 func vfInstallTickerSink() {
